@@ -57,8 +57,37 @@ def run_for(prop, tier, only=None):
     def describe(n):
         return {"operation_from_RI_state": n}
 
-    rc, res = KP.run_kani_property(prop, tier, ev, modules=["c13"], harnesses=names, appends=appends(), describe=describe,
-                                   role_of=lambda n: n, jobs=13, harness_timeout_s=600, work_key="kani-C13")
+    if only == "c11":
+        rc = C.EXIT_OK
+    else:
+      rc, res = KP.run_kani_property(prop, tier, ev, modules=["c13"], harnesses=names, appends=appends(), describe=describe,
+                                     role_of=lambda n: n, jobs=13, harness_timeout_s=600, work_key="kani-C13")
+    if prop in ("C13", "C05") and (not only or only == "c11"):
+        # part T (E3): the task state word under the C11 memory model - run || wake(+run), wake || wake
+        from props import C13t
+        from vlib import drvprop as DP
+        work = C.WorkDir(f"mirse-{prop}")
+        try:
+            mir, src_root, _ = DP.dump_mir(work)
+            if not mir:
+                C.log(f"INCONCLUSIVE property={prop} build: MIR dump failed")
+                rc = max(rc, C.EXIT_INCONCLUSIVE)
+            else:
+                ev.cov["engines"].append("mirse (MIR symbolic executor) + axc11 (axiomatic C11 release/acquire model over its atomic events, z3)")
+                rt = C13t.run_part(ev, work, mir, src_root, tier, prop=prop)
+                rc = C.EXIT_VIOLATION if C.EXIT_VIOLATION in (rc, rt) else max(rc, rt)
+        finally:
+            work.close()
+        ev.cov["bounds"]["c11"] = ("E3: the real runnable::run and Task::wake_by_ref/wake from the MIR, one thread at a time, atomics on the state word as C11 "
+                                   "events, the future as a non-atomic location; client programs: a scheduled task run by T0 || T1 publishes, wakes by "
+                                   "reference and runs the Runnable it obtains; an idle task woken by two such threads (thorough: three threads; the future "
+                                   "completing at the 2nd poll); <= 3 polls per thread, <= 1 CAS retry; no cancel / clone / drop of handles in these programs")
+        ev.cov["outside_claim"][0] = ("C11 orderings of cancel / handle drops / wake by value / the output hand-over to the Promise (the E3 client programs "
+                                      "cover run || wake_by_ref only); interleavings of the Kani part are at operation granularity (sequential atomics)")
+        ev.assumptions += ["E3: the scheduling function hands the Runnable to the waking thread, which runs it itself (weakest hand-over: no extra "
+                           "synchronisation); the future is an always-Pending script whose poll writes the non-atomic location F and reads the relaxed "
+                           "atomics X_i; loads of the state word are restricted to POLLING set, CLOSED clear, constant reference count, wake count <= number "
+                           "of wakes in the program (invariant of these programs)"]
     ev.write({0: "held on everything explored", 1: "violation", 2: "inconclusive"}[rc])
     return rc
 
@@ -67,6 +96,19 @@ def run(tier, only=None):
     return run_for(PROP, tier, only)
 
 
-def replay(path):
+def replay(path, prop=PROP):
+    import json
+    cej = os.path.join(path, "counterexample.json")
+    if os.path.exists(cej) and json.load(open(cej)).get("params", {}).get("e3") == "taskword":
+        from props import C13t
+        work = C.WorkDir(f"mirse-{prop}")
+        try:
+            rep = C13t.loom_replay(work, path)
+        finally:
+            work.close()
+        if rep:
+            C.log(f"VIOLATION property={prop} replay={path}")
+            return C.EXIT_VIOLATION
+        return C.EXIT_OK if rep is False else C.EXIT_INCONCLUSIVE
     from vlib import replay as R
-    return R.replay_kani(PROP, path)
+    return R.replay_kani(prop, path)
